@@ -111,3 +111,8 @@ func init() {
 func init() { prop("C04", "C04-R7") }
 
 func init() { prop("C02", "C01-R2") }
+
+func init() {
+	prop("C06", "C06-R3")
+	prop("C11", "C06-R3")
+}
